@@ -13,8 +13,8 @@ pub const PROP: Prop = Prop {
 };
 
 /// spellings usable on the command line; ABS is replaced by the absolute path of w/r
-const ARGV_ROOTS: [&str; 11] = [
-    "r", "./r", "r/", "r//", "r/.", "d/../r", "ABS", "missing", "f", "lr", "..//w/r",
+const ARGV_ROOTS: [&str; 13] = [
+    "r", "./r", "r/", "r//", "r/.", "d/../r", "ABS", "missing", "f", "lr", "..//w/r", "lx", "lr/",
 ];
 /// additional names only -files0-from can carry
 const FILES0_ONLY: [&str; 3] = ["", "-dash", "new\nline"];
@@ -27,7 +27,7 @@ fn spec(t: Tier) -> Spec {
     Spec {
         id: "C18",
         level: "exploration",
-        rule: format!("every list of <= {} starting points over {} spellings (plus, through -files0-from only: the empty name, a name starting with '-', a name containing a newline) is walked by find_main; the -print0 output must be the concatenation, in order, of the per-root reference walks with every path beginning with the root exactly as spelled; each argv list is also given as -files0-from FILE (with and without final NUL) and must give byte-identical output; missing roots must be diagnosed with non-zero status without affecting the others; the no-root case must equal '.'; binary slice: -files0-from - on stdin; non-trivial = list with >= 2 roots or a non-canonical spelling", bounds(t), ARGV_ROOTS.len()),
+        rule: format!("every list of <= {} starting points over {} spellings (directory, ./, trailing /, //, /., ../, absolute, missing, file, link to directory with and without trailing /, dangling link; lists of <= 2 also under -H and -L) (plus, through -files0-from only: the empty name, a name starting with '-', a name containing a newline) is walked by find_main; the -print0 output must be the concatenation, in order, of the per-root reference walks with every path beginning with the root exactly as spelled; each argv list is also given as -files0-from FILE (with and without final NUL) and must give byte-identical output; missing roots must be diagnosed with non-zero status without affecting the others; the no-root case must equal '.'; binary slice: -files0-from - on stdin; non-trivial = list with >= 2 roots or a non-canonical spelling", bounds(t), ARGV_ROOTS.len()),
         bound: json!({"max_roots": bounds(t), "argv_spellings": ARGV_ROOTS, "files0_only": FILES0_ONLY}),
         assumptions: vec!["exit status after an empty -files0-from name is not judged (statement: 'diagnosed and skipped')".into()],
         shards: 0,
@@ -45,6 +45,7 @@ fn c18_fs() -> Fs {
     fs.add(w, "d", K::Dir);
     fs.add(w, "f", K::File);
     fs.add(w, "lr", K::Link("r".into()));
+    fs.add(w, "lx", K::Link("nowhere".into()));
     let dash = fs.add(w, "-dash", K::Dir);
     fs.add(dash, "x", K::File);
     let nl = fs.add(w, "new\nline", K::Dir);
@@ -67,8 +68,8 @@ fn spell<'a>(env: &'a Env, r: &'a str) -> &'a str {
 }
 
 /// reference: (stdout bytes, any root missing, any empty name)
-fn expected(env: &Env, roots: &[&str]) -> (Vec<u8>, bool, bool) {
-    let cfg = WalkCfg { follow: Follow::P, mindepth: 0, maxdepth: usize::MAX, depth_first: false };
+fn expected(env: &Env, roots: &[&str], follow: Follow) -> (Vec<u8>, bool, bool) {
+    let cfg = WalkCfg { follow, mindepth: 0, maxdepth: usize::MAX, depth_first: false };
     let mut out = vec![];
     let mut missing = false;
     let mut empty = false;
@@ -151,12 +152,21 @@ fn setup(ctx: &Ctx) -> Env {
 }
 
 fn check_list(ctx: &mut Ctx, env: &Env, roots: &[&str], argv_ok: bool) {
-    let want = expected(env, roots);
+    // every follow mode for lists of <= 2 starting points, -P only beyond
+    let follows: &[Follow] = if roots.len() <= 2 { &[Follow::P, Follow::H, Follow::L] } else { &[Follow::P] };
+    for &follow in follows {
+        check_list_follow(ctx, env, roots, argv_ok, follow);
+    }
+}
+
+fn check_list_follow(ctx: &mut Ctx, env: &Env, roots: &[&str], argv_ok: bool, follow: Follow) {
+    let want = expected(env, roots, follow);
     let canon = roots.len() == 1 && roots[0] == "r";
     let listf = ctx.sbx.join(".mc-files0");
     let mut variants: Vec<(String, Vec<String>, Option<Vec<u8>>)> = vec![];
     if argv_ok {
-        let mut a: Vec<String> = roots.iter().map(|r| spell(env, r).to_string()).collect();
+        let mut a: Vec<String> = if follow == Follow::P { vec![] } else { vec![follow.flag().to_string()] };
+        a.extend(roots.iter().map(|r| spell(env, r).to_string()));
         a.push("-sorted".into());
         a.push("-print0".into());
         variants.push(("argv".into(), a, None));
@@ -166,11 +176,9 @@ fn check_list(ctx: &mut Ctx, env: &Env, roots: &[&str], argv_ok: bool) {
         if !final_nul && roots.last().is_some_and(|r| r.is_empty()) {
             continue;
         }
-        variants.push((
-            format!("files0 {}", if final_nul { "with final NUL" } else { "without final NUL" }),
-            vec!["-files0-from".into(), listf.to_string_lossy().to_string(), "-sorted".into(), "-print0".into()],
-            Some(files0_bytes(env, roots, final_nul)),
-        ));
+        let mut a: Vec<String> = if follow == Follow::P { vec![] } else { vec![follow.flag().to_string()] };
+        a.extend(["-files0-from".into(), listf.to_string_lossy().to_string(), "-sorted".into(), "-print0".into()]);
+        variants.push((format!("files0 {}", if final_nul { "with final NUL" } else { "without final NUL" }), a, Some(files0_bytes(env, roots, final_nul))));
     }
     for (what, av, list) in variants {
         ctx.rep.evaluations += 1;
@@ -186,7 +194,8 @@ fn check_list(ctx: &mut Ctx, env: &Env, roots: &[&str], argv_ok: bool) {
         if ctx.rep.evaluations % 500 == 3 {
             ctx.rep.sample(json!({"roots": roots, "form": what, "expected": String::from_utf8_lossy(&want.0).replace('\0', " | ")}));
         }
-        if let Some((sig, detail)) = judge(what.split(' ').next().unwrap(), &want, &got) {
+        let label = format!("{}{}", what.split(' ').next().unwrap(), if follow == Follow::P { String::new() } else { format!(" {}", follow.flag()) });
+        if let Some((sig, detail)) = judge(&label, &want, &got) {
             ctx.rep.violation(
                 &sig,
                 format!("roots {:?} via {what}: find {:?}\n{}", roots, av, detail),
@@ -262,7 +271,7 @@ fn run(ctx: &mut Ctx) {
         let w = ctx.sbx.join("w");
         for l in [vec!["r"], vec!["r/", "-dash"], vec!["new\nline", "missing", "./r"], vec!["", "r"]] {
             for final_nul in [true, false] {
-                let want = expected(&env, &l);
+                let want = expected(&env, &l, Follow::P);
                 let data = files0_bytes(&env, &l, final_nul);
                 let got = run_find_bin(&["-files0-from", "-", "-sorted", "-print0"], &w, Some(&data));
                 ctx.rep.evaluations += 1;
